@@ -9,6 +9,8 @@ import (
 	"crypto/sha256"
 	"fmt"
 	"runtime"
+	"runtime/debug"
+	"strings"
 	"sync"
 	"sync/atomic"
 	"time"
@@ -112,7 +114,7 @@ func ExploreFrom(sys System, seeds [][]Op, cfg Config) Stats {
 		mu.Unlock()
 	}
 	for _, s := range seeds {
-		r := sys.Run(s)
+		r := safeRun(sys, s)
 		st.Checks += int64(r.Checks)
 		if r.Viol != nil {
 			addViol(s, r.Viol)
@@ -206,7 +208,7 @@ func ExploreFrom(sys System, seeds [][]Op, cfg Config) Stats {
 						p := make([]Op, len(n.path)+1)
 						copy(p, n.path)
 						p[len(n.path)] = op
-						r := sys.Run(p)
+						r := safeRun(sys, p)
 						atomic.AddInt64(&trans, 1)
 						atomic.AddInt64(&checks, int64(r.Checks))
 						if r.Viol != nil {
@@ -287,7 +289,7 @@ func Enumerate(sys System, seeds [][]Op, depth int, cfg Config) Stats {
 			p := make([]Op, len(j.path)+1)
 			copy(p, j.path)
 			p[len(j.path)] = op
-			r := sys.Run(p)
+			r := safeRun(sys, p)
 			n := atomic.AddInt64(&trans, 1)
 			atomic.AddInt64(&checks, int64(r.Checks))
 			if n%4096 == 0 && !cfg.Deadline.IsZero() && time.Now().After(cfg.Deadline) {
@@ -303,7 +305,7 @@ func Enumerate(sys System, seeds [][]Op, depth int, cfg Config) Stats {
 	// Expand two levels breadth-first to get enough independent jobs, then DFS in parallel.
 	var jobs []job
 	for _, s := range seeds {
-		r := sys.Run(s)
+		r := safeRun(sys, s)
 		st.Checks += int64(r.Checks)
 		if r.Viol != nil {
 			addViol(s, r.Viol)
@@ -333,7 +335,7 @@ func Enumerate(sys System, seeds [][]Op, depth int, cfg Config) Stats {
 						p := make([]Op, len(j.path)+1)
 						copy(p, j.path)
 						p[len(j.path)] = op
-						r := sys.Run(p)
+						r := safeRun(sys, p)
 						atomic.AddInt64(&trans, 1)
 						atomic.AddInt64(&checks, int64(r.Checks))
 						if r.Viol != nil {
@@ -379,4 +381,19 @@ func Enumerate(sys System, seeds [][]Op, depth int, cfg Config) Stats {
 		st.Capped = "time budget reached during sequence enumeration"
 	}
 	return st
+}
+
+// safeRun runs one path; a panic that escapes the system's own guards (the code under check panicked
+// where the check did not expect it) becomes a violation of that path instead of a crash of the check.
+func safeRun(sys System, path []Op) (r Result) {
+	defer func() {
+		if p := recover(); p != nil {
+			st := string(debug.Stack())
+			if lines := strings.Split(st, "\n"); len(lines) > 24 {
+				st = strings.Join(lines[:24], "\n")
+			}
+			r = Result{Checks: 1, Viol: &Viol{Sig: "panic/unguarded", Detail: fmt.Sprintf("panic while running the path: %v\n%s", p, st)}}
+		}
+	}()
+	return sys.Run(path)
 }
